@@ -750,3 +750,62 @@ Section Truth.
     rewrite Hc, He, (view_stats_frames now _ Ht Rt), (view_stats_frames now _ Hx Rx). reflexivity.
   Qed.
 End Truth.
+
+(* ------------------------------------------------------------------ how a connection stops being listed *)
+
+Definition removes (id : N) (e : event) : Prop :=
+  match e with
+  | Unregister i _ => i = id
+  | Broadcast _ slow => In id slow
+  | _ => False
+  end.
+
+Lemma leaves_only_by_rev revs id :
+  present_rev revs id = false -> (exists m, joined_as_rev revs id = Some m) ->
+  exists e, In e revs /\ removes id e.
+Proof.
+  induction revs as [|e r IH]; cbn [present_rev joined_as_rev]; intros Hp [m Hj]; [discriminate|].
+  destruct e as [m'|i t|t slow|i dir f].
+  - destruct (m_id m' =? id); [discriminate|]. destruct (IH Hp (ex_intro _ m Hj)) as (e & He & Hr).
+    exists e. split; [right; exact He|exact Hr].
+  - destruct (i =? id) eqn:E.
+    + exists (Unregister i t). split; [left; reflexivity|cbn; lia].
+    + destruct (IH Hp (ex_intro _ m Hj)) as (e & He & Hr). exists e. split; [right; exact He|exact Hr].
+  - destruct (existsb (N.eqb id) slow) eqn:E.
+    + exists (Broadcast t slow). split; [left; reflexivity|]. cbn. apply existsb_exists in E.
+      destruct E as (y & Hy & Hxy). apply N.eqb_eq in Hxy. subst. exact Hy.
+    + destruct (IH Hp (ex_intro _ m Hj)) as (e & He & Hr). exists e. split; [right; exact He|exact Hr].
+  - destruct (IH Hp (ex_intro _ m Hj)) as (e & He & Hr). exists e. split; [right; exact He|exact Hr].
+Qed.
+
+(* a connection that joined is listed until it unregisters or the hub evicts it as a slow reader *)
+Theorem leaves_only_by_lemma evs id m :
+  joined_as evs id = Some m -> present evs id = false -> exists e, In e evs /\ removes id e.
+Proof.
+  unfold joined_as, present. intros Hj Hp. destruct (leaves_only_by_rev _ id Hp (ex_intro _ m Hj)) as (e & He & Hr).
+  exists e. split; [apply in_rev; exact He|exact Hr].
+Qed.
+
+(* "the relay's own stats feeder is always listed" does not hold: the feeder is a member of topic
+   stats like any other and a burst on that topic gets it evicted (it never unregisters itself) *)
+Definition ex_feeder : member :=
+  mk_member 1 (bytes_of "stats") (Some [bytes_of "read"; bytes_of "stats"; bytes_of "write"]) true true
+            [] (bytes_of "0001-01-01T00:00:00Z") (bytes_of "crossbar") (bytes_of "internal")
+            (mk_frames 0 0 lex_zero (Finite lex_zero)) (mk_frames 0 0 lex_zero (Finite lex_zero)).
+Definition ex_writer : member :=
+  mk_member 2 (bytes_of "stats") (Some [bytes_of "write"]) false true [] [] [] []
+            (mk_frames 0 0 lex_zero (Finite lex_zero)) (mk_frames 0 0 lex_zero (Finite lex_zero)).
+Definition ex_burst : list event :=
+  [Register ex_feeder; Register ex_writer; Traffic 2 Tx (mk_frames 400 9 [49; 52] (Finite [49]));
+   Broadcast (bytes_of "stats") [1]].
+
+Lemma feeder_always_listed_refuted_lemma :
+  wf_history ex_burst /\ In (Register ex_feeder) ex_burst /\
+  (forall t, ~ In (Unregister (m_id ex_feeder) t) ex_burst) /\
+  present ex_burst (m_id ex_feeder) = false /\
+  map m_id (listed (hub_run ex_burst)) = [2].
+Proof.
+  split; [cbn; repeat split; try reflexivity; intros id [<-|[]]; reflexivity|].
+  split; [left; reflexivity|]. split; [|split; vm_compute; reflexivity].
+  intros t [H|[H|[H|[H|[]]]]]; discriminate H.
+Qed.
